@@ -85,6 +85,49 @@ pub fn specs() -> Vec<Spec> {
 }
 
 fn flags_ok(flags: &str, s: &str) -> bool {
+    if flags.contains("glued35") && !s.contains('\n') && s.len() > 35 {
+        // the single-line form of 25P is an account directly followed by the BIC within one 35x line
+        return false;
+    }
+    if flags.contains("pidfirst") && s.starts_with('/') {
+        // a content that starts with '/' starts with the party identifier: it is never the location
+        let first = s.split('\n').next().unwrap_or("");
+        let fc: Vec<char> = first.chars().collect();
+        if !fmt::pid_ok(&fc[1..]) {
+            return false;
+        }
+    }
+    if flags.contains("numbered") {
+        // numbered lines carry 1, 2, 3, 4 in this order (what the serialiser writes / what the field's tests require)
+        let mut k = 0;
+        for l in s.split('\n') {
+            if l.starts_with('/') && k == 0 {
+                continue;
+            }
+            k += 1;
+            if l.chars().next().and_then(|c| c.to_digit(10)) != Some(k) {
+                return false;
+            }
+        }
+    }
+    if flags.contains("f23") {
+        // documented: "Days field: Required only for NOTICE" — two digits after the function code are the days and are
+        // only allowed for the function code NOT(ICE), 1..99
+        let b: Vec<char> = s.chars().collect();
+        if b.len() >= 5 && b[3].is_ascii_digit() && b[4].is_ascii_digit() {
+            let days = b[3].to_digit(10).unwrap() * 10 + b[4].to_digit(10).unwrap();
+            if &s[..3] != "NOT" || days == 0 || b.len() < 6 {
+                return false;
+            }
+        }
+    }
+    if flags.contains("rate") {
+        // documented by the field's own tests: a rate lies in 0.0001 ..= 100000
+        let v: f64 = s.replace(',', ".").parse().unwrap_or(0.0);
+        if !(0.0001..=100000.0).contains(&v) {
+            return false;
+        }
+    }
     if flags.contains("noslash") && (s.starts_with('/') || s.ends_with('/') || s.contains("//")) {
         return false;
     }
@@ -101,6 +144,41 @@ fn flags_ok(flags: &str, s: &str) -> bool {
 
 /// does the documented format accept `s` (for an enum: does the format of any member)
 pub fn documented(all: &[Spec], sp: &Spec, s: &str) -> bool {
+    if sp.flags.contains("strip1slash") {
+        // library convention for field 25: one leading '/' is not part of the 35x value
+        let t = s.strip_prefix('/').unwrap_or(s);
+        return fmt::matches_any(&sp.alts, t);
+    }
+    if sp.flags.contains("ref61") {
+        // the first "//" on the first line announces the bank reference (16x, at least one character)
+        let first = s.split('\n').next().unwrap_or("");
+        if let Some(p) = first.find("//") {
+            let after = &first[p + 2..];
+            if after.is_empty() || after.chars().count() > 16 {
+                return false;
+            }
+        }
+    }
+    if sp.flags.contains("pid53b") && !s.contains('\n') {
+        // documented in the parser: a single line that starts with '/' or looks like a BIC is the party identifier (34x)
+        let bic_like = (8..=11).contains(&s.len()) && s.chars().all(|c| c.is_ascii_uppercase() || c.is_ascii_digit());
+        if (s.starts_with('/') || bic_like) && s.chars().count() > 34 {
+            return false;
+        }
+    }
+    if sp.flags.contains("bytes9000") {
+        return !s.is_empty() && s.len() <= 9000;
+    }
+    if sp.flags.contains("pid53d") {
+        // documented in the parser's comments: the first line is a party identifier when more lines follow and it starts
+        // with '/' or looks like an account (<= 34 characters, no blank, at least one digit)
+        let lines: Vec<&str> = s.split('\n').collect();
+        let x = |l: &str, n: usize| !l.is_empty() && l.chars().count() <= n && l.chars().all(|c| fmt::in_class(c, 'x'));
+        let first = lines[0];
+        let looks = first.starts_with('/') || (first.len() <= 34 && !first.contains(' ') && first.chars().any(|c| c.is_ascii_digit()));
+        let (pid, rest) = if looks && !first.is_empty() && lines.len() > 1 { (Some(first), &lines[1..]) } else { (None, &lines[..]) };
+        return pid.map(|p| x(p, 35)).unwrap_or(true) && (1..=4).contains(&rest.len()) && rest.iter().all(|l| x(l, 35));
+    }
     if sp.members.is_empty() {
         fmt::matches_any(&sp.alts, s) && flags_ok(&sp.flags, s)
     } else {
@@ -202,7 +280,7 @@ pub fn run(o: &Opts) -> Report {
                 }
                 Outcome::Err => {
                     rep.tally(if doc { "outcome:err_but_documented" } else { "outcome:err" });
-                    if doc && want("C05") {
+                    if doc && want("C05") && !is_enum {
                         rep.fail(&format!("C05|reject_valid|{}|{}", sp.name, cls), wit("content conforms to the documented format but is rejected", Value::Null));
                     }
                     line = "err".into();
@@ -249,7 +327,7 @@ pub fn run(o: &Opts) -> Report {
             }
             if modelled.iter().any(|m| m == &sp.name) && replay_case.is_none() {
                 // amounts beyond 15 significant digits are outside the exact-decimal model
-                rep.model(format!("fld {} {}", sp.name, hex(&c)), line);
+                rep.model(format!("fld {} {}", sp.name, crate::extract::h(&c)), line);
             }
             if rep.samples.len() < 12 && cls.starts_with("valid") {
                 rep.sample(json!({"field": sp.name, "content": c, "documented": doc}));
